@@ -93,8 +93,8 @@ type Tracer struct {
 	// every SELFDESTRUCT that started executing (frame it ran in, account destroyed)
 	Suicides []SuicideRec
 
-	open    []*Frame         // open frames, index = depth-1
-	pending map[int]*OpRec   // depth -> op awaiting its after-observation
+	open    []*Frame          // open frames, index = depth-1
+	pending map[int]*OpRec    // depth -> op awaiting its after-observation
 	opener  map[int]vm.OpCode // depth -> call-like opcode executed last at that depth (may open a frame)
 	lockup  common.Address
 	evm     *vm.EVM
